@@ -5,4 +5,11 @@ PROP = "C01"
 
 
 def run(chk, replay):
+    import json, x_retry_cmd
+    if replay and "retry_cmd_case" in json.load(open(replay)).get("case", {}):
+        x_retry_cmd.stream(chk, PROP, json.load(open(replay))["case"]["retry_cmd_case"]); return
     sched.run_property(chk, PROP, replay)
+    if not replay:
+        # the retry of a recorded run through the REAL `start` / `retry --req` commands (cmd/retry.go's glue: which steps the retry
+        # pairs the recorded states with), file edited in between / paths with links (lib/x_retry_cmd.py; uses no PRNG)
+        x_retry_cmd.stream(chk, PROP)
